@@ -122,6 +122,18 @@ CHECKS = {
             "subset in every order; results must equal the single-module program, no module may be loaded twice, the outcome may "
             "not depend on the order, duplicate definitions must be rejected.",
             "Trusted: the single-module compile as reference; modules use only their own globals.", "4/C16"),
+    "C06": ("exploration",
+            "Hypothesis in-subset and near-miss program generation; differential execution wasmtime vs the VM; refusal accounting",
+            "Generated straight-line scalar programs (and programs with exactly one construct outside the subset) are compiled to "
+            "WebAssembly; emitted modules are validated, instantiated in wasmtime and every export is called on generated "
+            "arguments; results must equal the VM's (ints exactly, floats to f32); in-subset programs must not be refused.",
+            "Trusted: wasmtime as the conforming engine; the VM as value reference; vf/interp.py to discard inputs leaving 32 bit.", "4/C06"),
+    "C07": ("exploration",
+            "Hypothesis program generation + a Hypothesis model of the writer API; independent binary decoder / validator "
+            "cross-checked with wasmtime",
+            "Every module the compiler emits for generated programs, and modules built directly through the nsl.WebAssembly API "
+            "with mixed-type local groups, is decoded strictly and validated (section framing, index spaces, body typing).",
+            "Trusted: vf/wasmref.py (any disagreement with wasmtime is a harness error, exit 2).", "4/C07"),
 }
 
 PENDING = {}
